@@ -139,6 +139,7 @@ def op_solve_seq(c):
     if c.get("share"):
         game = share_rows(game)
     before = copy.deepcopy(game)
+    ids = [id(x) for x in game["transition_list"]] if isinstance(game.get("transition_list"), list) else None
     out = []
     obj = None
     for prune, fresh in c["steps"]:
@@ -150,6 +151,10 @@ def op_solve_seq(c):
                 continue
         r = do_solve(game, prune, obj)
         r["intact"] = (game == before)
+        if ids is not None and isinstance(game.get("transition_list"), list) and ids != [id(x) for x in game["transition_list"]]:
+            # equal by value, but the caller's outer list now holds OTHER row objects: the description was written to
+            r["intact"] = False
+            r["rows_replaced"] = True
         if not r["intact"]:
             r["after"] = enc(game)
         out.append(r)
